@@ -372,11 +372,30 @@ func TestC20Liq(t *testing.T) {
 			tr.p("imp %s %s", m.name, class)
 		}
 		c20DumpCompare(a, tr, mods, orig, reimp)
+		// A sweep that starts from a different offset on the two chains (the offsets are not exported:
+		// C20-F6) may liquidate different vaults; what the later steps observe then follows from that,
+		// and they are attributed to the offset prefix instead of their own.
+		sweepDiverged, afterSweep := false, false
+		v1Offset := func(c sdk.Context) uint64 {
+			h, _ := a.LiquidationKeeper.GetLiquidationOffsetHolder(c, w.app, liquidationtypes.VaultLiquidationsOffsetPrefix)
+			return h.CurrentOffset
+		}
 		for i, st := range c20LiqContinuation(w, sc) {
 			bo, bn := c20LiqBalances(w, orig), c20LiqBalances(w, reimp)
+			offO, offN := v1Offset(orig), v1Offset(reimp)
 			co := st.run(orig)
 			cn := st.run(reimp)
-			tr.p("cont %d %s %s %d %s %s %d %d %d %d", i, st.name, st.depMod, st.depByte, co, cn, st.id(orig), st.id(reimp),
+			if st.name == "liq.sweep" && offO != offN && len(a.VaultKeeper.GetVaults(orig)) != len(a.VaultKeeper.GetVaults(reimp)) {
+				sweepDiverged = true
+			}
+			dm, db := st.depMod, st.depByte
+			if sweepDiverged && afterSweep {
+				dm, db = "liquidation", 22
+			}
+			if st.name == "liq.sweep" {
+				afterSweep = true
+			}
+			tr.p("cont %d %s %s %d %s %s %d %d %d %d", i, st.name, dm, db, co, cn, st.id(orig), st.id(reimp),
 				c20BalDelta(bo, c20LiqBalances(w, orig)), c20BalDelta(bn, c20LiqBalances(w, reimp)))
 		}
 	}
